@@ -202,4 +202,9 @@ def ranges : Nat → List Tok → List (Nat × Nat)
   | _, [] => []
   | off, t :: ts => (off, off + byteLen t.text) :: ranges (off + byteLen t.text) ts
 
+/-- consecutive ranges: each starts where the previous ended, is non-empty, the last ends at `b` -/
+def Tiles : Nat → List (Nat × Nat) → Nat → Prop
+  | a, [], b => a = b
+  | a, (x, y) :: rs, b => x = a ∧ x < y ∧ Tiles y rs b
+
 end Goml.Lex
